@@ -238,6 +238,12 @@ func genXport(r *rng, seed uint64, focus, arm string) *plan.Plan {
 					// an error, not some message
 					t.Acts = []plan.UpAction{{Kind: "truncate_udp", DelayUs: r.i64(50, 5000), Arg: r.intn(4)}, {Kind: []string{"fin", "rst", "silent", "half_frame"}[r.intn(4)], DelayUs: r.i64(50, 20_000), Arg: r.intn(40)}}
 				}
+			case 6:
+				if kind == "udp" {
+					// truncated over UDP, answered over TCP: the caller gets the TCP
+					// answer under its own id
+					t.Acts = []plan.UpAction{{Kind: "truncate_udp", DelayUs: r.i64(50, 5000), Arg: r.intn(4)}, {Kind: "reply", DelayUs: r.i64(50, 20_000)}}
+				}
 			case 4:
 				// the answer cut short (its counts promise more than follows):
 				// what lies behind it in the read buffer is not part of it
@@ -261,6 +267,12 @@ func genXport(r *rng, seed uint64, focus, arm string) *plan.Plan {
 				act.Arg = r.intn(40)
 			case 3:
 				act.Kind = "silent"
+			case 4:
+				// one reply per query, but this one is a frame too short to be a
+				// message (its body may look like frames of its own); the proper
+				// answer follows on the retry
+				act.Kind = "garbage"
+				act.Raw = [][]byte{{0, 0}, {0, 2, 0, 0}, {0, 1, 0}, {0, 0, 0, 0, 0, 0}, r.bytes(r.rng(1, 11))}[r.intn(5)]
 			}
 		case "C16":
 			if r.p(0.6) {
